@@ -1,13 +1,13 @@
 CONSTANTS
   FlowSet = {"flows/a.yaml", "flows/b.yaml"}
   Endpoints = {"configuration", "apply_flows"}
-  Methods = {"PUT", "POST"}
-  MaxNth = 4
-  WithBadB64 = TRUE
+  Methods = {"PUT"}
+  MaxNth = 2
+  WithBadB64 = FALSE
   MxOld = {"m1"}
   GwOld = {"none"}
-  MaxUpdates = 1
-  PayloadCats = {1, 4, 5}
+  MaxUpdates = 2
+  PayloadCats = {1}
   AnchorFlows = {"flows/a.yaml"}
   Paths <- PathsMC
   Cat <- CatMC
